@@ -13,7 +13,7 @@ for (seed, pid), r in sorted(last.items()):
     catch = ''
     for ln in r.get('lines', []):
         m = re.search(r'\s(fail)\s+\S+\s+(\S+)', ln)
-        if m: catch = m.group(2); break
+        if m and '_finding_' not in m.group(2): catch = m.group(2); break
         m = re.search(r'fail\s+verus\s+(\S+)', ln)
         if m: catch = m.group(1); break
     why = ''
@@ -25,5 +25,12 @@ for s, p, res, c, summ, why in rows:
     out.append(f'| {s} | {p} | {res} | {c or why} | {summ} |')
 n = len(rows); caught = sum(1 for r in rows if r[2] == 'caught'); und = sum(1 for r in rows if r[2] == 'undecided')
 out.append(''); out.append(f'{caught} of {n} caught, {und} undecided (exit 2), {n - caught - und} missed.')
+by = {}
+for s_, p_, res, c, summ, why in rows:
+    by.setdefault(p_, {'caught': [], 'undecided': [], 'missed': []})[res if res in ('caught', 'undecided', 'missed') else 'missed'].append((s_, c))
+out += ['', '| property | caught (by which obligation) | undecided (exit 2) | missed |', '|---|---|---|---|']
+for p_ in sorted(by):
+    b = by[p_]
+    out.append(f"| {p_} | " + '; '.join(f"{s_} ({c})" for s_, c in b['caught']) + ' | ' + ', '.join(s_ for s_, _ in b['undecided']) + ' | ' + ', '.join(s_ for s_, _ in b['missed']) + ' |')
 open('/verif/seeded/MATRIX.md', 'w').write('\n'.join(out) + '\n')
 print('\n'.join(out[-3:]))
